@@ -348,7 +348,14 @@ pub fn build(
         if i > 0 {
             // Inject all non-first-base vfuncs into the type
             if let Some(vftable) = &base_type.vftable {
-                add_functions(&vftable.functions);
+                // Virtual functions without a receiver have no wrapper to forward to.
+                let with_receiver: Vec<_> = vftable
+                    .functions
+                    .iter()
+                    .filter(|f| f.arguments.iter().any(|a| a.is_self()))
+                    .cloned()
+                    .collect();
+                add_functions(&with_receiver);
             }
         }
     }
